@@ -72,7 +72,10 @@ def run(v, tier, rng):
             order.append(nm)
         us = uses(rng, order, mode)
         head = [("config", "BITS", ("num", 32))] if mode == 32 else []
-        with_equ = head + [("equ", nm, defs[nm]) for nm in order] + us
+        deforder = list(order)
+        if rng.random() < 0.35:
+            rng.shuffle(deforder)        # definitions not in dependency order (a body may use a name defined further down); all precede the first use
+        with_equ = head + [("equ", nm, defs[nm]) for nm in deforder] + us
         # interleave: definitions may also sit between uses of earlier names (define-before-use kept)
         inlined = head + [("mn", st[1], [subst(o, defs) for o in st[2]]) for st in us]
         pairs.append((with_equ, inlined, mode, depth))
